@@ -260,7 +260,9 @@ one by one, one views repeatedly; afterwards a final view.  The process may not 
 def handleStress (input impl : Json) (tg : String → Nat) : R Reply := do
   let st ← field input "stress"
   let t ← natF st "t"
-  let ini ← listF proposal st "init"
+  let old ← listOf proposal (fieldD st "old" .null)
+  let age ← asNat (fieldD st "age" (.num 0))
+  let ini0 ← listF proposal st "init"
   let rem ← listF proposal st "remove"
   let add ← listF proposal st "add"
   let exit ← strF impl "exit"
@@ -269,12 +271,17 @@ def handleStress (input impl : Json) (tg : String → Nat) : R Reply := do
   let views ← listOf (fun j => do
     pure ({ rds := ← natF j "rds", rse := ← natF j "rse", ads := ← natF j "ads", ase := ← natF j "ase",
             out := ← listF proposal j "out" } : ConcView)) (fieldD impl "views" .null)
-  let ops : List Op := [.add ini, .remove rem, .add add, .view t]
+  -- `old` was added `age` ago and never viewed since: what of it is past its expiry is still in the store
+  let pre : List Op := [.add old, .adv age, .add ini0]
+  let ops : List Op := pre ++ [.remove rem, .add add, .view t]
+  -- what a view at the start of the concurrent phase shows
+  let base := ((run tg (pre ++ [.view t]) (St.init 0)).getLast?.join).getD []
+  let ini := base
   let mouts := run tg ops (St.init 0)
   let want := (mouts.getLast?.join).getD []
   let ok := exit == "ok"
   let got := final.getD []
-  let outs : List (Option (List Proposal)) := [none, none, none, some got]
+  let outs : List (Option (List Proposal)) := [none, none, none, none, none, some got]
   let badView := views.find? (fun v =>
     !concViewOk (concRequired ini rem add v.rse v.ads) (concAllowed ini rem add v.rds v.ase) v.out)
   let si := ok && final.isSome && spec tg 0 ops outs && badView.isNone
@@ -292,7 +299,11 @@ def handleStress (input impl : Json) (tg : String → Nat) : R Reply := do
          fail := fail, nontrivial := true,
          tags := ["stress", if t == logT then "stress-log" else "stress-conditional",
                   s!"stress-views-{views.length}"] ++
-                 (if views.any (fun v => v.rds < v.rse || v.ads < v.ase) then ["stress-view-overlaps-remove-or-add"] else []) }
+                 (if views.any (fun v => v.rds < v.rse || v.ads < v.ase) then ["stress-view-overlaps-remove-or-add"] else []) ++
+                 (if old.isEmpty then [] else if base.length < old.length + ini0.length
+                    then ["stress-expired-unpurged-records"] else ["stress-aged-live-records"]) ++
+                 (if add.any (old.contains ·) then ["stress-readds-old-work-ids"] else []) ++
+                 (if add.any (fun p => old.contains p && !base.contains p) then ["stress-readds-expired-unpurged-work-ids"] else []) }
 
 def handle (input impl : Json) : R Reply := do
   let table ← listF (fun j => do pure ((← strF j "uid"), (← natF j "t"))) input "types"
